@@ -132,6 +132,7 @@ var validName = regexp.MustCompile(`^[A-Za-z_][A-Za-z0-9_]*$`)
 
 const (
 	quiesceTimeout = 10 * time.Second
+	staleGrace     = 4 * time.Second
 	freeLH         = node.Key(0xFFF)
 )
 
@@ -299,6 +300,7 @@ func (s *sim) quiesce(want table) error {
 	deadline := time.Now().Add(quiesceTimeout)
 	sleep := 500 * time.Microsecond
 	polls := int64(0)
+	var staleSince time.Time
 	for {
 		polls++
 		why := ""
@@ -343,6 +345,15 @@ func (s *sim) quiesce(want table) error {
 		if why == "" {
 			s.rep.Add("quiesce_polls", polls)
 			return nil
+		}
+		// A leaseholder whose own name index disagrees with its own table: the index is
+		// updated in the same step as the table or not at all, so a shorter wait decides.
+		if staleNode == 0 {
+			staleSince = time.Time{}
+		} else if staleSince.IsZero() {
+			staleSince = time.Now()
+		} else if time.Since(staleSince) > staleGrace {
+			return &staleIndex{msg: staleMsg}
 		}
 		if time.Now().After(deadline) {
 			s.rep.Add("quiesce_timeouts", 1)
